@@ -296,8 +296,14 @@ func c05Again(w *Worker, inputs []c05Input) {
 		x.NoConfirm = true // (a single run of the binary cannot reproduce a sequence of runs)
 		ii := x.Choose(len(inputs), "input:input")
 		ci := x.Choose(len(c05Cmds), "input:command")
-		ei := x.Choose(len(c05Cmds), "event:earlier-command")
-		eo := x.Choose(2, "event:earlier-run-on-other-files")
+		// the earlier run: any command shape, on the same or on other files; or the same command under an environment
+		// that names another book and log, another date format, another depth limit (the later run has none of them)
+		ev := x.Choose(4, "event:earlier-run-environment")
+		ei, eo := ci, 0
+		if ev == 0 {
+			ei = x.Choose(len(c05Cmds), "event:earlier-command")
+			eo = x.Choose(2, "event:earlier-run-on-other-files")
+		}
 		c := mk(ii, ci)
 		key := fmt.Sprintf("%d|%d", ii, ci)
 		base, ok := baseCache[key]
@@ -310,6 +316,15 @@ func c05Again(w *Worker, inputs []c05Input) {
 			ein = other
 		}
 		ec := mk(ein, ei)
+		switch ev {
+		case 1:
+			ec.Env = map[string]string{"HR_DATABASE": "other-food.yaml", "HR_LOGFILE": "other-log.yaml"}
+			ec.Files = map[string]string{"food.yaml": inputs[ii].Book, "log.yaml": inputs[ii].Log, "other-food.yaml": inputs[other].Book, "other-log.yaml": inputs[other].Log}
+		case 2:
+			ec.Env = map[string]string{"HR_DATE_FORMAT": "2006-01-02"}
+		case 3:
+			ec.Env = map[string]string{"HR_MAXDEPTH": "1"}
+		}
 		runApp(ec) // (in a process of its own state: reset before it)
 		appKeepState = true
 		r := func() AppRun {
@@ -317,7 +332,7 @@ func c05Again(w *Worker, inputs []c05Input) {
 			return runApp(c)
 		}()
 		x.Obs(r.Key())
-		x.Case(fmt.Sprint(key, ei, eo), true)
+		x.Case(fmt.Sprint(key, ei, eo, ev), true)
 		if r.Key() != base.Key() {
 			kind := "output-depends-on-an-earlier-run"
 			if r.Failed != base.Failed {
